@@ -20,13 +20,13 @@ Section Plane.
     nabs (vdot (pl_normal pl) point - pl_d pl) <? neps.
 
   (** Plane3D::intersect: the distance along the ray; tag = which return fired
-      (1 = parallel band, 2 = behind, 3 = hit).  Note [if t < 0. {None} else {Some(t)}]:
-      a NaN [t] is returned as [Some]. *)
+      (1 = parallel band, 2 = behind or at the origin, 3 = hit).  Note [if t <= 0. {None} else {Some(t)}]
+      (fix fb7e7b9; [t < 0.] on the pinned tree accepted distance zero): a NaN [t] is returned as [Some]. *)
   Definition plane_intersect_tag (pl : Plane) (ray : Ray K) : option K * N :=
     let den := vdot (pl_normal pl) (rdir ray) in
     if nabs den <? neps then (None, 1%N) else
     let t := (pl_d pl - vdot (pl_normal pl) (rorigin ray)) / den in
-    if t <? n0 then (None, 2%N) else (Some t, 3%N).
+    if t <=? n0 then (None, 2%N) else (Some t, 3%N).
   Definition plane_intersect (pl : Plane) (ray : Ray K) : option K := fst (plane_intersect_tag pl ray).
 End Plane.
 Arguments Plane K : clear implicits.
